@@ -3,6 +3,7 @@ package main
 import (
 	"fmt"
 	"go/token"
+	"go/types"
 	"strings"
 
 	"golang.org/x/tools/go/ssa"
@@ -101,62 +102,7 @@ func c09(r *Report) {
 	})
 
 	r.Guard("C09.R2", "a frame is emitted only when it fits both windows, and both windows are then reduced by its flow-controlled size", func() {
-		// SETTINGS_INITIAL_WINDOW_SIZE moves every open stream's window by (new - old), and an
-		// update adds its increment: the operators and their operand order
-		if ui := r.Use("h2", "relay.updateInitialWindowSize"); ui != nil {
-			isOld := func(v ssa.Value) bool {
-				return anyIn(w.backSlice(v, flowOpt{}), func(x ssa.Value) bool {
-					fa, y := x.(*ssa.FieldAddr)
-					return y && fieldObj(fa).Name() == "initialWindowSize"
-				})
-			}
-			isNew := func(v ssa.Value) bool {
-				return anyIn(w.backSlice(v, flowOpt{}), func(x ssa.Value) bool { return len(ui.Params) > 1 && isParamVal(x, ui.Params[1]) })
-			}
-			var delta ssa.Value
-			nsub := 0
-			for _, in := range instrs(ui) {
-				b, ok := in.(*ssa.BinOp)
-				if !ok || (b.Op != token.SUB && b.Op != token.ADD) {
-					continue
-				}
-				if (isNew(b.X) && isOld(b.Y)) || (isOld(b.X) && isNew(b.Y)) {
-					nsub++
-					if b.Op == token.SUB && isNew(b.X) && isOld(b.Y) && !isOld(b.X) {
-						delta = b
-					}
-				}
-			}
-			r.Decide("flow", "(*M/h2.relay).updateInitialWindowSize: the adjustment is new minus old", delta != nil && nsub == 1, "delta = int(v) - int(r.initialWindowSize)", "the stream windows are moved by something other than (new initial size - old initial size): after a SETTINGS change the relay believes in more (or less) credit than the receiver granted", ui.Pos())
-			okAdd := false
-			for _, in := range instrs(ui) {
-				st, ok := in.(*ssa.Store)
-				if !ok {
-					continue
-				}
-				fa, ok := st.Addr.(*ssa.FieldAddr)
-				if !ok || fieldObj(fa).Name() != "windowSize" {
-					continue
-				}
-				if b, isB := st.Val.(*ssa.BinOp); isB && b.Op == token.ADD && delta != nil && (b.X == delta || b.Y == delta) {
-					other := b.X
-					if b.X == delta {
-						other = b.Y
-					}
-					if ld, isLd := other.(*ssa.UnOp); isLd && ld.X == ssa.Value(fa) || func() bool {
-						ld, isLd := other.(*ssa.UnOp)
-						if !isLd {
-							return false
-						}
-						fa2, isFa := ld.X.(*ssa.FieldAddr)
-						return isFa && fieldObj(fa2) == fieldObj(fa) && fa2.X == fa.X
-					}() {
-						okAdd = true
-					}
-				}
-			}
-			r.Decide("flow", "(*M/h2.relay).updateInitialWindowSize: every stream window is moved by the adjustment", okAdd, "w.windowSize += delta", "the stream windows are not increased by the adjustment", ui.Pos())
-		}
+		initialWindowRules(r)
 		// a stream seen for the first time starts with exactly the receiver's current initial
 		// window size, whatever it is (zero included: SETTINGS_INITIAL_WINDOW_SIZE=0 means
 		// "send nothing until I say so")
@@ -671,7 +617,21 @@ func windowFitRules(r *Report, emit *ssa.Function) ([]sendPoint, bool) {
 					}
 					return 0, false
 				}
+				// an optional hook (`if w.trace != nil { w.trace(...) }`) changes nothing either way: the
+				// walk is made with hooks absent - the call of a present hook is an effect, at which
+				// the walk would stop before reaching the send
 				out, okD := decideWith(startBlock, func(v ssa.Value) (bool, bool) {
+					if b, isB := v.(*ssa.BinOp); isB && (b.Op == token.EQL || b.Op == token.NEQ) {
+						other := b.X
+						if isNilConst(b.X) {
+							other = b.Y
+						}
+						if isNilConst(b.X) || isNilConst(b.Y) {
+							if _, isSig := other.Type().Underlying().(*types.Signature); isSig {
+								return b.Op == token.EQL, true
+							}
+						}
+					}
 					ev := &miniEval{leaf: val}
 					return ev.Bool(v)
 				}, func(i ssa.Instruction) bool { v, isV := i.(ssa.Value); return isV && isFCS(v) })
@@ -715,11 +675,11 @@ func frameSizeRules(r *Report) {
 		loads := plainCalls(f, "sync/atomic.LoadUint32", "sync/atomic.LoadInt32", "sync/atomic.LoadUint64", "sync/atomic.LoadInt64", "(*sync/atomic.Uint32).Load", "(*sync/atomic.Int32).Load", "(*sync/atomic.Uint64).Load", "(*sync/atomic.Int64).Load")
 		var max ssa.Value
 		for _, l := range loads {
-			if fa, ok := l.Call.Args[0].(*ssa.FieldAddr); ok && fieldObj(fa).Name() == "maxFrameSize" {
+			if fa, ok := l.Call.Args[0].(*ssa.FieldAddr); ok && fieldObj(fa).Name() == "maxFrameSize" && len(f.Params) > 0 && isParamVal(fa.X, f.Params[0]) {
 				max = l
 			}
 		}
-		r.Decide("flow", fmt.Sprintf("(*M/h2.%s): loads maxFrameSize atomically", name), max != nil, "atomic.LoadUint32(&r.maxFrameSize)", "the builder does not consult the receiver's maximum frame size", f.Pos())
+		r.Decide("flow", fmt.Sprintf("(*M/h2.%s): loads maxFrameSize atomically", name), max != nil, "atomic.LoadUint32(&r.maxFrameSize)", "the builder does not consult the maximum frame size of the receiver it builds frames for (its own relay's field, which the peer relay updates from that receiver's SETTINGS): frames are cut to another endpoint's limit, or to none", f.Pos())
 		if max == nil {
 			continue
 		}
@@ -1163,4 +1123,70 @@ func allStoresInto(a *ssa.Alloc) []*ssa.Store {
 		}
 	}
 	return out
+}
+
+// initialWindowRules: SETTINGS_INITIAL_WINDOW_SIZE moves every open stream's
+// window by (new - old) and by nothing else. Shared by C09.R2 and C08.R8.
+func initialWindowRules(r *Report) {
+	w := r.W
+	_ = w
+	// SETTINGS_INITIAL_WINDOW_SIZE moves every open stream's window by (new - old), and an
+	// update adds its increment: the operators and their operand order
+	if ui := r.Use("h2", "relay.updateInitialWindowSize"); ui != nil {
+		isOld := func(v ssa.Value) bool {
+			return anyIn(w.backSlice(v, flowOpt{}), func(x ssa.Value) bool {
+				fa, y := x.(*ssa.FieldAddr)
+				return y && fieldObj(fa).Name() == "initialWindowSize"
+			})
+		}
+		isNew := func(v ssa.Value) bool {
+			return anyIn(w.backSlice(v, flowOpt{}), func(x ssa.Value) bool { return len(ui.Params) > 1 && isParamVal(x, ui.Params[1]) })
+		}
+		var delta ssa.Value
+		nsub := 0
+		for _, in := range instrs(ui) {
+			b, ok := in.(*ssa.BinOp)
+			if !ok || (b.Op != token.SUB && b.Op != token.ADD) {
+				continue
+			}
+			if (isNew(b.X) && isOld(b.Y)) || (isOld(b.X) && isNew(b.Y)) {
+				nsub++
+				if b.Op == token.SUB && isNew(b.X) && isOld(b.Y) && !isOld(b.X) {
+					delta = b
+				}
+			}
+		}
+		r.Decide("flow", "(*M/h2.relay).updateInitialWindowSize: the adjustment is new minus old", delta != nil && nsub == 1, "delta = int(v) - int(r.initialWindowSize)", "the stream windows are moved by something other than (new initial size - old initial size): after a SETTINGS change the relay believes in more (or less) credit than the receiver granted", ui.Pos())
+		okAdd := false
+		nStores := 0
+		for _, in := range instrs(ui) {
+			st, ok := in.(*ssa.Store)
+			if !ok {
+				continue
+			}
+			fa, ok := st.Addr.(*ssa.FieldAddr)
+			if !ok || fieldObj(fa).Name() != "windowSize" {
+				continue
+			}
+			nStores++
+			if b, isB := st.Val.(*ssa.BinOp); isB && b.Op == token.ADD && delta != nil && (b.X == delta || b.Y == delta) {
+				other := b.X
+				if b.X == delta {
+					other = b.Y
+				}
+				if ld, isLd := other.(*ssa.UnOp); isLd && ld.X == ssa.Value(fa) || func() bool {
+					ld, isLd := other.(*ssa.UnOp)
+					if !isLd {
+						return false
+					}
+					fa2, isFa := ld.X.(*ssa.FieldAddr)
+					return isFa && fieldObj(fa2) == fieldObj(fa) && fa2.X == fa.X
+				}() {
+					okAdd = true
+				}
+			}
+		}
+		r.Decide("flow", "(*M/h2.relay).updateInitialWindowSize: every stream window is moved by the adjustment", okAdd, "w.windowSize += delta", "the stream windows are not increased by the adjustment", ui.Pos())
+		r.Decide("flow", "(*M/h2.relay).updateInitialWindowSize: the adjustment is all that happens to a stream window", nStores == 1, "one store to windowSize", fmt.Sprintf("%d stores to windowSize: the window is corrected after the adjustment (clamped at zero, say): a window the receiver made negative by lowering its initial size is a debt, and forgetting it lets the relay send DATA the receiver has not allowed", nStores), ui.Pos())
+	}
 }
